@@ -167,11 +167,40 @@ int main(int argc, char** argv) {
             std::string L = si[li]; std::string o1 = si[li > 0 ? rng() % li : 0], o2 = si[li > 0 ? rng() % li : 0];
             auto mk = [&](const char* kind, const std::string& k) { Op o; o.kind = kind; o.k = k; return o; };
             for (auto& v : prog) v.clear();
-            prog[0].push_back(mk("get", L)); if (rng() % 2) prog[0].push_back(mk(rng() % 2 ? "put" : "get", L));
+            if (pscan > 0) { Op rd; rd.kind = "scan"; rd.le = scan_endpoint::INF; rd.re = scan_endpoint::INF; rd.max = 0; rd.rtl = false; rd.limit = -1;
+                             if (rng() % 2) { rd.rtl = true; rd.max = 1; } prog[0].push_back(rd); }      // full scan of the leaf / greatest-key query
+            else { prog[0].push_back(mk("get", L)); if (rng() % 2) prog[0].push_back(mk(rng() % 2 ? "put" : "get", L)); }
             prog[1].push_back(mk("rem", o1)); prog[1].push_back(mk(rng() % 2 ? "rem" : "put", rng() % 2 ? o1 : o2));
             for (long t = 2; t < nth; t++) prog[t].push_back(mk("rem", o2));
             for (long t = 0; t < nth; t++) for (auto& o : prog[t]) o.t = (int)t + 1;
             for (auto& k : {L, o1, o2}) if (std::find(scn.uni.begin(), scn.uni.end(), k) == scn.uni.end()) scn.uni.push_back(k);
+        }
+        // directed=3 (family pair): a full scan / cursor while the left border is emptied (unlinked: its range falls to the right border)
+        // and one of its keys is inserted again, now into the border the reader is standing on or about to enter
+        if (directed == 3 && fam == "pair" && nth >= 2) {
+            std::vector<std::string> left; for (auto& k : scn.init) if (std::find(scn.prune.begin(), scn.prune.end(), k) == scn.prune.end() && (unsigned char)k[0] < 90) left.push_back(k);
+            if (!left.empty()) {
+                auto mk = [&](const char* kind, const std::string& k) { Op o; o.kind = kind; o.k = k; return o; };
+                for (auto& v : prog) v.clear();
+                Op rd; rd.kind = (pscan >= piscan) ? "scan" : (rng() % 2 ? "scan" : "iscan"); rd.le = scan_endpoint::INF; rd.re = scan_endpoint::INF; rd.max = 0; rd.rtl = false; rd.limit = -1;
+                prog[0].push_back(rd);
+                for (auto& k : left) prog[1].push_back(mk("rem", k));
+                prog[nth > 2 ? 2 : 1].push_back(mk("put", left[rng() % left.size()]));
+                for (long t = 0; t < nth; t++) for (auto& o : prog[t]) o.t = (int)t + 1;
+            }
+        }
+        // directed=4 (family pair): both borders under the interior root are emptied at the same time by two removers (root collapse while
+        // the sibling that becomes root is being deleted itself); a third thread reads / re-inserts
+        if (directed == 4 && fam == "pair" && nth >= 2) {
+            std::vector<std::string> left, right; for (auto& k : scn.init) if (std::find(scn.prune.begin(), scn.prune.end(), k) == scn.prune.end()) ((unsigned char)k[0] < 90 ? left : right).push_back(k);
+            if (!left.empty() && !right.empty()) {
+                auto mk = [&](const char* kind, const std::string& k) { Op o; o.kind = kind; o.k = k; return o; };
+                for (auto& v : prog) v.clear();
+                for (auto& k : left) prog[0].push_back(mk("rem", k));
+                for (auto& k : right) prog[1].push_back(mk("rem", k));
+                if (nth > 2) prog[2].push_back(mk(rng() % 2 ? "get" : "put", rng() % 2 ? left[0] : right[0]));
+                for (long t = 0; t < nth; t++) for (auto& o : prog[t]) o.t = (int)t + 1;
+            }
         }
         // schedules for this scenario
         long nsched = runs; std::vector<std::vector<std::pair<int, long>>> plans;
